@@ -122,6 +122,11 @@ func (muxer *Muxer) process() {
 		}
 
 		if !packSequenceHeader{
+			// 序列头只能由流的实际参数集生成：参数集未知之前（如 sdp 中没有 sprop-parameter-sets，
+			// 且音频帧先于视频参数集到达）丢弃帧，而不是用空的 SPS 生成序列头
+			if !muxer.videoMetaReady() {
+				continue
+			}
 			muxer.muxMetadataTag()
 			muxer.vp.PacketizeSequenceHeader()
 			muxer.ap.PacketizeSequenceHeader()
@@ -142,6 +147,15 @@ func (muxer *Muxer) process() {
 		default:
 		}
 	}
+}
+
+// videoMetaReady 判断生成视频序列头所需的参数集是否已就绪
+func (muxer *Muxer) videoMetaReady() bool {
+	vm := muxer.videoMeta
+	if vm.Codec == "H265" {
+		return len(vm.Vps) > 0 && len(vm.Sps) > 0 && len(vm.Pps) > 0
+	}
+	return len(vm.Sps) >= 4 && len(vm.Pps) > 0
 }
 
 func (muxer *Muxer) muxMetadataTag() error {
